@@ -177,7 +177,9 @@ func cmdCheck(args []string) int {
 	prop := fs.String("property", "", "property id")
 	tier := fs.String("tier", "", "quick|thorough")
 	verbose := fs.Bool("v", false, "verbose")
+	wb := fs.Bool("write-baseline", false, "record the discharged obligation names in /verif/baseline/<property>.json")
 	fs.Parse(args)
+	writeBaseline = *wb
 	if *prop == "" {
 		usage()
 	}
